@@ -278,3 +278,8 @@ def check(ctx):
                   and kw(rt, "model_state", 0)[1] == "model_state")
         ctx.ob("C09.R3", tr, "the sequence returns the state left by the last kernel",
                ok_ret, detail=short(kw(rt, "model_state", 0) or ()) if rt else "")
+
+    # ---- shared mechanisms: the neighbour's rules run as obligations of this property
+    ctx.include("C03", "C09.R5", only=None)
+    ctx.include("C01", "C09.R5", only=None)
+    ctx.rule("R5", "shared mechanisms, run as obligations of this property: both state-passing interfaces write back through a full update (C03); derived quantities in the state are the model's cached nodes (C01).")
